@@ -87,7 +87,7 @@ def check(ctx):
     grets = gs.returns
     ctx.sites("C02.R3.gaussian", len(grets), 2, "returns of the gaussian aggregate interval function")
     for pc, t, n in grets:
-        early = any(c[0][0] == "cmp" and "shape" in ir.show(c[0]) and c[1] for c in pc)
+        early = any(c[0][0] == "cmp" and ("shape" in ir.show(c[0]) or "len(nonreporting_units)" in ir.show(c[0])) and c[1] for c in pc)
         parts = t[2] if t[0] == "call" else (t[1] if t[0] == "tuple" else None)
         ctx.require(parts is not None and len(parts) == 2, f"{gf.where(n)}: return is not a (lower, upper) pair")
         for cls_mode in (False, True):
@@ -181,7 +181,7 @@ def check(ctx):
     s = b.summarize(f, {"estimand": ("const", "margin")}, self_cls=bc)
     ret = s.ret()
     # views of the returned table below / at the top level, whatever the branch layout (C08's writer discipline is not judged here)
-    TOPC = ("call", ("attr", ("param", "self"), "_is_top_level_aggregate"), (("param", "aggregate"),), ())
+    TOPC = ir.repo_call(("attr", ("param", "self"), "_is_top_level_aggregate"), [("aggregate", ("param", "aggregate"))])
     ctx.require(any(x[0] == "phi" and x[1] == TOPC for x in ir.walk(ret)), f"{f.where()}: the result does not distinguish the top level (race-call adjustment)")
     nontop = am.non_classification_view(ir.resolve_phi(ret, TOPC, False))
     topv = am.non_classification_view(ir.resolve_phi(ret, TOPC, True))
